@@ -591,7 +591,9 @@ static int push_args(Node *node) {
       break;
     case TY_FLOAT:
     case TY_DOUBLE:
-      if (fp++ >= FP_MAX) {
+      if (fp < FP_MAX) {
+        fp++;
+      } else {
         arg->pass_by_stack = true;
         stack++;
       }
@@ -601,7 +603,9 @@ static int push_args(Node *node) {
       stack = stack_arg_slots(arg, stack);
       break;
     default:
-      if (gp++ >= GP_MAX) {
+      if (gp < GP_MAX) {
+        gp++;
+      } else {
         arg->pass_by_stack = true;
         stack++;
       }
@@ -1433,14 +1437,18 @@ static void assign_lvar_offsets(Obj *prog) {
         break;
       case TY_FLOAT:
       case TY_DOUBLE:
-        if (fp++ < FP_MAX)
+        if (fp < FP_MAX) {
+          fp++;
           continue;
+        }
         break;
       case TY_LDOUBLE:
         break;
       default:
-        if (gp++ < GP_MAX)
+        if (gp < GP_MAX) {
+          gp++;
           continue;
+        }
       }
 
       top = align_to(top, MAX(8, ty->align));
